@@ -1,4 +1,5 @@
 import GitSizer.Proofs.GraphRun7
+import GitSizer.Proofs.TreeInit
 import GitSizer.Proofs.GraphTrees
 import GitSizer.Proofs.History
 /-! # C04 — Checkout metrics equal the recursive expansion of the worst tree
@@ -76,5 +77,16 @@ theorem checkout_maxima_exact (r : Repo) (ops : List Op) (v : ValidRun r ops) :
   simp only [treeNums, List.cons.injEq, and_true] at t
   exact ⟨st, h, t.2.2.2.2.1, t.2.2.2.2.2.1, t.2.2.2.2.2.2.1, t.2.2.2.2.2.2.2.1, t.2.2.2.2.2.2.2.2.1,
     t.2.2.2.2.2.2.2.2.2.1, t.2.2.2.2.2.2.2.2.2.2⟩
+
+
+/-- **`treeRecord.initialize` in source order is what the aggregator model computes.** The code
+    handles the entries of a tree in one pass, interleaving files, symlinks, submodules and
+    subtrees (`Graph.initEntries`, the `switch` of graph.go with the regenerated `add*` methods);
+    the model folds the non-tree entries first (`baseB`) and then runs `Agg.initLoop` over the
+    subtree entries. Same state, same pending count, same size, for every tree and every state. -/
+theorem initialize_source_order (r : Repo) (t : Nat) (st : Agg.St Gen.TreeSize) :
+    Graph.initEntries (Graph.blobSize32 r) t (r.entries t) st 0 Graph.newTreeSize =
+      Agg.initLoop (Graph.PB r) t ((Graph.PB r).kids t) st 0 ((Graph.PB r).base t) :=
+  Graph.initialize_is_model r t st
 
 end GitSizer.C04
